@@ -383,7 +383,7 @@ class Models(object):
                      'isscalar', 'clip', 'cumsum', 'mean', 'sort', 'argsort', 'copy', 'meshgrid', 'allclose',
                      'isclose', 'expand_dims', 'broadcast_to', 'array_equal', 'count_nonzero', 'trapz',
                      'nanmedian', 'flip', 'tile', 'repeat', 'unravel_index', 'cumprod', 'take', 'ascontiguousarray',
-                     'column_stack', 'resize', 'swapaxes', 'moveaxis', 'real_if_close', 'ptp', 'vdot', 'putmask', 'issubdtype', 'polyfit', 'polyval', 'fliplr', 'flipud', 'triu', 'tril', 'copyto', 'unique', 'tril_indices', 'triu_indices', 'diag_indices'):
+                     'column_stack', 'resize', 'swapaxes', 'moveaxis', 'real_if_close', 'ptp', 'vdot', 'putmask', 'issubdtype', 'polyfit', 'polyval', 'fliplr', 'flipud', 'triu', 'tril', 'copyto', 'unique', 'tril_indices', 'triu_indices', 'diag_indices', 'extract', 'place'):
             fn = getattr(self, 'np_' + name, None)
             if fn is None:
                 fn = self._unmodelled('np.' + name)
@@ -1186,6 +1186,55 @@ class Models(object):
     np_amin = np_min
     np_nanmin = np_min
     np_nanmax = np_max
+
+    def np_extract(self, condition, arr):
+        """np.extract(condition, arr) == np.compress(ravel(condition), ravel(arr)): the selected elements in C order"""
+        c = self.np_asarray(condition).ravel().items()
+        a = self.np_asarray(arr).ravel()
+        if len(c) != a.size:
+            raise AnalysisError('np.extract with a condition of another size')
+        if any(isinstance(m, (Unk, Choice)) for m in c):
+            raise AnalysisError('np.extract with an undetermined condition')
+        items = a.items()
+        picked = [items[i] for i, m in enumerate(c) if _truthy(m)]
+        return Arr((len(picked),), picked, kind=a.kind)
+
+    def np_place(self, arr, mask, vals):
+        """np.place: the first N values are put into the N true positions, one after the other (cyclically)"""
+        if not isinstance(arr, Arr):
+            raise InterpTypeError('place: argument 1 must be numpy.ndarray')
+        arr._check_writeable()
+        m = broadcast_to(self.np_asarray(mask), arr.shape).items()
+        v = self.np_asarray(vals).ravel().items()
+        if any(isinstance(x, (Unk, Choice)) for x in m):
+            raise AnalysisError('np.place with an undetermined mask')
+        k = 0
+        for n_, mk in enumerate(m):
+            if _truthy(mk):
+                if not v:
+                    raise InterpValueError('Cannot insert from an empty array!')
+                arr.buf.data[arr.pos[n_]] = v[k % len(v)]
+                arr.buf.writes.append((arr.pos[n_], getattr(arr, '_where', None)))
+                k += 1
+
+    def np_issubdtype(self, a, b):
+        def kind_of(t):
+            if isinstance(t, DType):
+                return t.kind
+            nm = getattr(t, '__name__', None)
+            return {'float': 'f', 'floating': 'f', 'float64': 'f', 'complex': 'c', 'complexfloating': 'c', 'complex128': 'c',
+                    'int': 'i', 'integer': 'i', 'int64': 'i', 'bool': 'b', 'bool_': 'b', 'number': 'n', 'inexact': 'x',
+                    'generic': 'g', 'signedinteger': 'i'}.get(nm)
+        ka, kb = kind_of(a), kind_of(b)
+        if ka is None or kb is None:
+            raise AnalysisError('np.issubdtype(%r, %r)' % (a, b))
+        if kb == 'g':
+            return True
+        if kb == 'n':
+            return ka in ('f', 'c', 'i')
+        if kb == 'x':
+            return ka in ('f', 'c')
+        return ka == kb
 
     def np_flatnonzero(self, a):
         a = self.np_asarray(a).ravel()
